@@ -28,7 +28,13 @@ RULE = (
     "header layout, missing-value mask of the feature columns, label pattern, chunk sizes, format); non-trivial = "
     "at least one missing cell, or more than one column chunk, or more than one row chunk, or a malformed table; "
     "thorough adds the exhaustive sweeps: every feature count 1..60 x identifier count 2..5 x chunk sizes, and all "
-    "missing-value masks of a 2-feature x 3-row table x row/column chunk sizes x both formats"
+    "missing-value masks of a 2-feature x 3-row table x row/column chunk sizes x both formats; extension "
+    "(GAPS-C10.md): entry point read_pin | read_percolator, arguments by keyword | by position, a single path | "
+    "one-element list | tuple; keyword arguments naming own / feature / other-role / unknown / wrong-case / empty "
+    "columns (one or two at a time) compared with the declarative specification `pin-spec-args`, every argument x "
+    "entry point x call form once; 2-4 files per call "
+    "(list | tuple, mixed formats, one malformed member at any position); the row index of spectra_dataframe; "
+    "label columns written as floats (1.0 / -1.0 / 0.0) or holding one fractional value"
 )
 
 REQUIRED = ["specid", "peptide", "proteins", "label", "scannr"]
@@ -196,33 +202,47 @@ def gen_case(rng, nmax=60, force=None):
         c=c, r=r, workers=force.get("workers", rng.randint(1, 8)),
         args={k: None for k in ARG_KEYS},
         kind="wellformed",
+        entry=rng.choice(["read_pin", "read_pin", "read_percolator"]),
+        call=rng.choice(["kw", "kw", "pos"]),
+        form=rng.choice(["path", "path", "list", "tuple"]),
     )
     return case
 
 
 def with_args(rng, case):
-    """non-default keyword arguments (exact-case column names)"""
+    """non-default keyword arguments (exact-case column names), one or two roles at a time"""
     names = [n for n, _ in case["cols"]]
     lower = {n.lower(): n for n in names}
     feats = [n for n in names if n.lower() not in REQUIRED + LEVELS + OPTIONAL + ["charge_column"]]
-    k = rng.choice(ARG_KEYS)
-    # (an argument naming a column that is also found under another role, e.g. filename_column="ScanNr",
-    # duplicates identifier columns; such calls are outside the property and are not generated)
-    style = rng.choice(["own", "own", "feature", "feature", "absent", "wrongcase", "empty"])
-    default = {"filename_column": "filename", "calcmass_column": "calcmass", "expmass_column": "expmass",
-               "rt_column": "ret_time", "charge_column": "charge_column"}[k]
-    if style == "own" and default in lower:
-        v = lower[default]
-    elif style in ("own", "feature"):
-        v = rng.choice(feats)
-    elif style == "absent":
-        v = "no_such_column"
-    elif style == "wrongcase":
-        v = rng.choice(names).swapcase()
-    else:
-        v = ""
-    case["args"][k] = v
-    case["kind"] = "args:" + style
+    # (an argument naming a column that is also found under another *identifier* role, e.g.
+    # filename_column="ScanNr", duplicates identifier columns; such calls are outside the property and are not
+    # generated; "otherrole" names a reserved column that is not an identifier)
+    styles = []
+    keys = rng.sample(ARG_KEYS, 2 if rng.random() < 0.3 else 1)
+    used = set()
+    for k in keys:
+        style = rng.choice(["own", "own", "feature", "feature", "absent", "wrongcase", "empty", "otherrole"])
+        default = {"filename_column": "filename", "calcmass_column": "calcmass", "expmass_column": "expmass",
+                   "rt_column": "ret_time", "charge_column": "charge_column"}[k]
+        if style == "own" and default in lower:
+            v = lower[default]
+        elif style in ("own", "feature"):
+            v = rng.choice(feats)
+        elif style == "absent":
+            v = "no_such_column"
+        elif style == "wrongcase":
+            v = rng.choice(names).swapcase()
+        elif style == "otherrole":
+            v = lower[rng.choice(["specid", "peptide", "proteins"])]
+        else:
+            v = ""
+        if v in used and v != "":
+            v = "no_such_column"  # never the same column for two roles (identifier columns would be duplicated)
+            style = "absent"
+        used.add(v)
+        case["args"][k] = v
+        styles.append(style)
+    case["kind"] = "args:" + "+".join(styles)
     return case
 
 
@@ -341,27 +361,8 @@ def canon_value(v):
     return str(v)
 
 
-def run_impl(case, path: Path):
-    """call the real `mokapot.read_pin`; returns ('ok', dataset-dict) or ('error', exception)"""
-    import logging
-
-    import mokapot
-
-    logging.getLogger("mokapot").setLevel(logging.ERROR)
-    P = importlib.import_module("mokapot.parsers.pin")
-    P.CHUNK_SIZE_COLUMNS_FOR_DROP_COLUMNS = case["c"]
-    P.CHUNK_SIZE_ROWS_FOR_DROP_COLUMNS = case["r"]
-    kw = {k: v for k, v in case["args"].items() if v is not None}
-    try:
-        res = mokapot.read_pin(path, max_workers=case["workers"], **kw)
-    except Exception as e:  # noqa: BLE001
-        return "error", e
-    finally:
-        P.CHUNK_SIZE_COLUMNS_FOR_DROP_COLUMNS = DEFAULT_C
-        P.CHUNK_SIZE_ROWS_FOR_DROP_COLUMNS = DEFAULT_R
-    if not isinstance(res, list) or len(res) != 1:
-        return "ok", dict(malformed_result=repr(type(res)))
-    ds = res[0]
+def dataset_dict(ds):
+    """the observable fields of one returned dataset"""
     df = ds.spectra_dataframe
     tcol = ds.target_column
     out = dict(
@@ -371,12 +372,67 @@ def run_impl(case, path: Path):
         calcmass=ds.calcmass_column, expmass=ds.expmass_column, rt=ds.rt_column, charge=ds.charge_column,
         df_columns=[str(x) for x in df.columns],
         target_dtype=str(df[tcol].dtype) if tcol in df.columns and list(df.columns).count(tcol) == 1 else "?",
+        path=str(ds.filename),
     )
     out["spectra"] = [[str(cn), [canon_value(v) for v in df.iloc[:, j].tolist()]]
                       for j, cn in enumerate(df.columns) if j < len(df.columns) - 1]
     last = df.iloc[:, -1].tolist() if len(df.columns) else []
     out["targets"] = [canon_value(v) for v in last]
-    return "ok", out
+    out["index"] = [canon_value(v) for v in df.index.tolist()]
+    return out
+
+
+def call_entry(case, paths):
+    """call the real entry point in the form the case asks for"""
+    import mokapot
+
+    kw = {k: v for k, v in case["args"].items() if v is not None}
+    entry = case.get("entry", "read_pin")
+    if entry == "read_percolator":
+        assert len(paths) == 1
+        if case.get("call") == "pos":
+            return [mokapot.read_percolator(paths[0], case["workers"], *[case["args"][k] for k in ARG_KEYS])]
+        return [mokapot.read_percolator(paths[0], max_workers=case["workers"], **kw)]
+    form = case.get("form", "path")
+    if form == "path" and len(paths) == 1:
+        files = paths[0]
+    elif form == "tuple":
+        files = tuple(paths)
+    else:
+        files = list(paths)
+    if case.get("call") == "pos":
+        return mokapot.read_pin(files, case["workers"], *[case["args"][k] for k in ARG_KEYS])
+    return mokapot.read_pin(files, max_workers=case["workers"], **kw)
+
+
+def run_impl_files(case, paths):
+    """call the real code on one or several files; returns ('ok', [dataset-dict]) or ('error', exception)"""
+    import logging
+
+    logging.getLogger("mokapot").setLevel(logging.ERROR)
+    P = importlib.import_module("mokapot.parsers.pin")
+    P.CHUNK_SIZE_COLUMNS_FOR_DROP_COLUMNS = case["c"]
+    P.CHUNK_SIZE_ROWS_FOR_DROP_COLUMNS = case["r"]
+    try:
+        res = call_entry(case, paths)
+    except Exception as e:  # noqa: BLE001
+        return "error", e
+    finally:
+        P.CHUNK_SIZE_COLUMNS_FOR_DROP_COLUMNS = DEFAULT_C
+        P.CHUNK_SIZE_ROWS_FOR_DROP_COLUMNS = DEFAULT_R
+    if not isinstance(res, list):
+        return "ok", [dict(malformed_result=repr(type(res)))]
+    return "ok", [dataset_dict(ds) for ds in res]
+
+
+def run_impl(case, path: Path):
+    """call the real `mokapot.read_pin` / `read_percolator`; returns ('ok', dataset-dict) or ('error', exception)"""
+    status, out = run_impl_files(case, [path])
+    if status == "error":
+        return status, out
+    if len(out) != 1:
+        return "ok", dict(malformed_result=f"{len(out)} datasets for one file")
+    return "ok", out[0]
 
 
 # ----------------------------------------------------------------------------
@@ -436,6 +492,7 @@ CLAUSE = {
     "spectra": "spectra data frame is not one entry per input row in file order",
     "targets": "targets are not exactly the rows labelled 1/true",
     "metadata": "metadata columns differ",
+    "index": "row index of the spectra data frame is not 0..n-1 in file order",
 }
 
 
@@ -467,6 +524,19 @@ def must_reject(case):
     if not all(isinstance(x, bool) for x in lab):
         if any(isinstance(x, int) and not isinstance(x, bool) and (x < -1 or x > 1) for x in lab):
             return "label outside {-1, 0, 1}"
+    return None
+
+
+def must_reject_args(case):
+    """direct re-statement: an optional role named by the caller must be a column of the file in exactly that
+    letter case (`col or default`: the empty string stands for the default name)"""
+    header = [n for n, _ in case["cols"]]
+    default = {"filename_column": "filename", "calcmass_column": "calcmass", "expmass_column": "expmass",
+               "rt_column": "ret_time", "charge_column": "charge_column"}
+    for k in ARG_KEYS:
+        v = case["args"].get(k)
+        if v is not None and (v or default[k]) not in header:
+            return f"{k} names a column the file does not have"
     return None
 
 
@@ -518,19 +588,33 @@ def jsonable(case):
 
 
 def eval_cases(chk, cases, tmpdir: Path):
+    files = [c for c in cases if c.get("kind", "").startswith("files")]
+    labels = [c for c in cases if c.get("kind", "").startswith("labels")]
+    if files:
+        eval_files_cases(chk, files, tmpdir)
+    if labels:
+        eval_label_cases(chk, labels, tmpdir)
+    cases = [c for c in cases if not c.get("kind", "").startswith(("files", "labels"))]
     lines = []
     for c in cases:
         tb = wire_table(c)
         lines.append(req("pin-parse", wire_args(c), c["c"], c["r"], tb))
         lines.append(req("pin-spec", tb))
+        lines.append(req("pin-index", wire_args(c), c["c"], c["r"], tb))
+        lines.append(req("pin-spec-args", wire_args(c), tb))
     resp = common.driver_batch(lines)
     for i, c in enumerate(cases):
-        mresp = dec(resp[2 * i])
-        sresp = dec(resp[2 * i + 1])
+        mresp = dec(resp[4 * i])
+        sresp = dec(resp[4 * i + 1])
+        iresp = dec(resp[4 * i + 2])
+        aresp = dec(resp[4 * i + 3])
         model = None if isinstance(mresp, str) else d_dataset(mresp)
         model_err = mresp if isinstance(mresp, str) else None
+        model_index = None if isinstance(iresp, str) else [int(x) for x in iresp]
         wf = a_bool(sresp[0])
         spec = d_dataset(sresp[1])
+        wf_args = a_bool(aresp[0])
+        spec_args = d_dataset(aresp[1])
         default_args = all(v is None for v in c["args"].values())
         path = tmpdir / f"case{i}{c['suffix']}"
         write_case(c, path)
@@ -539,6 +623,7 @@ def eval_cases(chk, cases, tmpdir: Path):
             path.unlink()
         except OSError:
             pass
+        nrows = len(c["cols"][0][1]) if c["cols"] else 0
         nfeat = sum(1 for n, _ in c["cols"] if n.lower() not in REQUIRED + LEVELS + OPTIONAL + ["charge_column"])
         chk.case(None, layout_key(c) if nontrivial(c) else None,
                  sample=dict(header=[n for n, _ in c["cols"]][:12], rows=len(c["cols"][0][1]), c=c["c"], r=c["r"],
@@ -546,6 +631,13 @@ def eval_cases(chk, cases, tmpdir: Path):
                                                           else repr(out)[:80]),
                              model_features=(model["features"][:8] if model else model_err)))
         chk.count("kind", c["kind"].split(":")[0])
+        if c["kind"].startswith("args:"):
+            for st in c["kind"][5:].split("+"):
+                chk.count("args_style", st)
+            chk.count("args_given", sum(v is not None for v in c["args"].values()))
+            chk.count("args_admissible", wf_args)
+        chk.count("entry", c.get("entry", "read_pin") + "/" + c.get("call", "kw")
+                  + ("/" + c.get("form", "path") if c.get("entry", "read_pin") == "read_pin" else ""))
         chk.count("fmt", c["fmt"] + c["suffix"])
         chk.count("n_features", nfeat if nfeat < 10 else (nfeat // 10) * 10)
         chk.count("n_features_mod_c", f"{(nfeat) % c['c']}" if c["c"] <= 8 else ("c=19" if c["c"] == 19 else "c>8"))
@@ -553,23 +645,34 @@ def eval_cases(chk, cases, tmpdir: Path):
             chk.count("columns_to_scan_mod_19", (nfeat + len(spec["spectrum"]) + 1) % DEFAULT_C)
         chk.count("c", "default" if c["c"] == DEFAULT_C else ("1" if c["c"] == 1 else "other"))
         chk.count("r", "default" if c["r"] == DEFAULT_R else ("1" if c["r"] == 1 else "other"))
+        chk.count("row_chunks", min(4, -(-nrows // max(1, c["r"]))))
         chk.count("workers", c["workers"])
         chk.count("has_na", any(x is None for _, cells in c["cols"] for x in cells))
         chk.count("well_formed", wf)
         chk.count("impl", status)
         info = dict(case=jsonable(c))
+        if default_args and wf != wf_args:
+            # the two specifications must agree on calls without arguments (C10_args_generalises_default)
+            chk.corr_break("pin-spec-args", dict(info, impl="-", model=f"wellFormedB={wf} wellFormedArgsB={wf_args}"))
+        if default_args and wf and diff_fields(spec, spec_args):
+            chk.corr_break("pin-spec-args", dict(info, fields=diff_fields(spec, spec_args), impl="-",
+                                                 model="specDataset and specDatasetArgs {} differ"))
         if status == "error":
             err = f"{type(out).__name__}: {str(out)[:200]}"
             if wf and default_args:
                 chk.spec_violation("wellformed-rejected:" + type(out).__name__,
                                    dict(info, impl=err, expected=spec, clause="parsing of a well-formed table failed"))
+            elif wf_args:
+                chk.spec_violation("admissible-call-rejected:" + type(out).__name__,
+                                   dict(info, impl=err, expected=spec_args,
+                                        clause="parsing failed although every named column exists"))
             elif model is not None:
                 chk.corr_break("pin-parse", dict(info, impl=err, model="ok (model parses this table)"))
             else:
                 chk.reject(model_err + "/" + type(out).__name__)
             continue
         # the implementation returned a dataset
-        why = must_reject(c) if default_args else None
+        why = must_reject(c) if default_args else (must_reject(c) or must_reject_args(c))
         if why is not None:
             chk.spec_violation("malformed-accepted:" + why.replace(" ", "-"),
                                dict(info, impl={k: out.get(k) for k in ("features", "spectrum", "targets")},
@@ -580,12 +683,17 @@ def eval_cases(chk, cases, tmpdir: Path):
             chk.spec_violation("dataframe-shape", dict(info, impl=out, expected=spec, clause="; ".join(shape)))
             continue
         bad = generic_clauses(c, out)
+        if out.get("index") != list(range(nrows)):
+            bad.append("index")
         if wf and default_args:
             bad = bad + [f for f in diff_fields(out, spec) if f not in bad]
+        if wf_args:
+            bad = bad + [f for f in diff_fields(out, spec_args) if f not in bad]
         if bad:
             f0 = bad[0]
+            exp = dict(spec_args if wf_args else spec, index=list(range(nrows)))
             chk.spec_violation("clause:" + f0,
-                               dict(info, impl={k: out.get(k) for k in bad}, expected={k: spec.get(k) for k in bad},
+                               dict(info, impl={k: out.get(k) for k in bad}, expected={k: exp.get(k) for k in bad},
                                     clause=CLAUSE.get(f0, f"field {f0} differs from the specification")))
             continue
         if model is None:
@@ -595,6 +703,214 @@ def eval_cases(chk, cases, tmpdir: Path):
             if d:
                 chk.corr_break("pin-parse", dict(info, fields=d, impl={k: out.get(k) for k in d},
                                                  model={k: model.get(k) for k in d}))
+            if out.get("index") != model_index:
+                chk.corr_break("pin-index", dict(info, impl=out.get("index"), model=model_index))
+
+
+# ----------------------------------------------------------------------------
+# several files per call
+# ----------------------------------------------------------------------------
+def gen_files_case(rng):
+    """2-4 small tables handed to one `read_pin` call as a list or tuple; optionally one malformed member"""
+    k = rng.choice([2, 2, 3, 4])
+    shared = rng.random() < 0.3  # a column every file has, named by a keyword argument
+    members = []
+    for _ in range(k):
+        m = gen_case(rng, nmax=6, force=dict(nrows=rng.choice([1, 2, 3, 4])))
+        if shared:
+            nrows = len(m["cols"][0][1])
+            m["cols"].insert(rng.randint(0, len(m["cols"])), ["extra_col", [rng.randint(0, 9) for _ in range(nrows)]])
+        members.append(m)
+    bad_at = None
+    if rng.random() < 0.3:
+        bad_at = rng.randrange(k)
+        members[bad_at] = malform(rng, members[bad_at], rng.choice(["drop-required", "dup-required", "label-range"]))
+        if shared and not any(n == "extra_col" for n, _ in members[bad_at]["cols"]):
+            nrows = len(members[bad_at]["cols"][0][1])
+            members[bad_at]["cols"].append(["extra_col", [0] * nrows])
+    args = {a: None for a in ARG_KEYS}
+    if shared:
+        args[rng.choice(ARG_KEYS)] = "extra_col"
+    return dict(kind="files:" + ("malformed" if bad_at is not None else "wellformed"), members=members, bad_at=bad_at,
+                args=args, c=rng.choice([DEFAULT_C, 1, 2, 3, 5]), r=rng.choice([DEFAULT_R, 1, 2, 3]),
+                workers=rng.randint(1, 4), entry="read_pin", call=rng.choice(["kw", "kw", "pos"]),
+                form=rng.choice(["list", "tuple"]))
+
+
+def eval_files_cases(chk, cases, tmpdir: Path):
+    lines = []
+    for c in cases:
+        tbs = [wire_table(m) for m in c["members"]]
+        lines.append(req("pin-files", wire_args(c), c["c"], c["r"], Atom("many"), tbs))
+        for tb in tbs:
+            lines.append(req("pin-spec-args", wire_args(c), tb))
+    resp = common.driver_batch(lines)
+    pos = 0
+    for i, c in enumerate(cases):
+        k = len(c["members"])
+        mresp = dec(resp[pos])
+        specs = [dec(resp[pos + 1 + j]) for j in range(k)]
+        pos += 1 + k
+        model = None if isinstance(mresp, str) else [d_dataset(v) for v in mresp]
+        model_err = mresp if isinstance(mresp, str) else None
+        admissible = [a_bool(sp[0]) for sp in specs]
+        spec = [d_dataset(sp[1]) for sp in specs]
+        paths = []
+        for j, m in enumerate(c["members"]):
+            path = tmpdir / f"files{i}_{j}{m['suffix']}"
+            write_case(m, path)
+            paths.append(path)
+        status, out = run_impl_files(c, paths)
+        for path in paths:
+            try:
+                path.unlink()
+            except OSError:
+                pass
+        key = (tuple(layout_key(dict(m, c=c["c"], r=c["r"], args=c["args"])) for m in c["members"]), c["form"])
+        chk.case(None, key, sample=dict(files=k, bad_at=c["bad_at"], form=c["form"],
+                                        impl=(len(out) if status == "ok" else repr(out)[:80])))
+        chk.count("kind", c["kind"].split(":")[0])
+        chk.count("files_per_call", k)
+        chk.count("files_form", c["form"] + "/" + c["call"])
+        chk.count("files_bad_at", "none" if c["bad_at"] is None else ("first" if c["bad_at"] == 0 else
+                                                                       ("last" if c["bad_at"] == k - 1 else "middle")))
+        chk.count("files_args", "default" if all(v is None for v in c["args"].values()) else "named")
+        chk.count("impl", status)
+        info = dict(case=jsonable(c))
+        why = None
+        for j, m in enumerate(c["members"]):
+            w = must_reject(m) or must_reject_args(dict(m, args=c["args"]))
+            if w:
+                why = f"file {j}: {w}"
+                break
+        if status == "error":
+            err = f"{type(out).__name__}: {str(out)[:200]}"
+            if all(admissible):
+                chk.spec_violation("files:admissible-call-rejected:" + type(out).__name__,
+                                   dict(info, impl=err, expected=spec, clause="every file is well-formed, parsing failed"))
+            elif model is not None:
+                chk.corr_break("pin-files", dict(info, impl=err, model="ok (model parses these files)"))
+            else:
+                chk.reject(model_err + "/" + type(out).__name__)
+            continue
+        if why is not None:
+            chk.spec_violation("files:malformed-accepted",
+                               dict(info, impl=f"{len(out)} datasets", expected="an exception",
+                                    clause=f"{why}: the call was not rejected"))
+            continue
+        if any("malformed_result" in o for o in out) or len(out) != k:
+            chk.spec_violation("files:count", dict(info, impl=f"{len(out)} datasets", expected=f"{k} datasets",
+                                                   clause="read_pin does not return one dataset per file"))
+            continue
+        done = False
+        for j, (o, m) in enumerate(zip(out, c["members"])):
+            nrows = len(m["cols"][0][1])
+            bad = impl_shape_problems(o) and ["dataframe-shape"] or []
+            if not bad:
+                bad = generic_clauses(m, o)
+                if o.get("index") != list(range(nrows)):
+                    bad.append("index")
+                if o.get("path") != str(paths[j]):
+                    bad.append("path")
+                if admissible[j]:
+                    bad = bad + [f for f in diff_fields(o, spec[j]) if f not in bad]
+            if bad:
+                chk.spec_violation("files:clause:" + bad[0],
+                                   dict(info, file=j, impl={f: o.get(f) for f in bad},
+                                        expected={f: spec[j].get(f) for f in bad},
+                                        clause=f"dataset {j} is not the parse of file {j} ({bad[0]})"))
+                done = True
+                break
+        if done:
+            continue
+        if model is None:
+            chk.corr_break("pin-files", dict(info, impl="ok", model=model_err))
+        elif len(model) != len(out) or any(diff_fields(o, mo) for o, mo in zip(out, model)):
+            chk.corr_break("pin-files", dict(info, impl=[o.get("features") for o in out],
+                                             model=[mo.get("features") for mo in model]))
+
+
+# ----------------------------------------------------------------------------
+# label columns holding floating-point numbers
+# ----------------------------------------------------------------------------
+FRACTIONS = [1.5, -1.5, 0.5, -0.5, 1.9, -1.9, 1.25, -0.25, 2.5, -2.5, 1.75, -1.75, 0.75]
+
+
+def gen_label_case(rng):
+    """a well-formed table whose label column is written with floating-point numbers: 1.0 / -1.0 / 0.0
+    ("float") or the same with one fractional value ("fraction")"""
+    m = gen_case(rng, nmax=5, force=dict(label_enc=rng.choice(["pm1", "01", "mixed"]), nrows=rng.choice([2, 3, 4, 6]),
+                                         na_mode="none"))
+    i = [n.lower() for n, _ in m["cols"]].index("label")
+    lab = [float(x) for x in m["cols"][i][1]]
+    kind = rng.choice(["float", "fraction", "fraction"])
+    if kind == "fraction":
+        lab[rng.randrange(len(lab))] = rng.choice(FRACTIONS)
+    m["cols"][i][1] = lab
+    m["kind"] = "labels:" + kind
+    return m
+
+
+def wire_label(x):
+    from fractions import Fraction
+
+    if x is None:
+        return Atom("none")
+    if isinstance(x, bool) or isinstance(x, int):
+        return x
+    if isinstance(x, float):
+        q = Fraction(x)  # exact value of the double pandas / pyarrow decode
+        return [q.numerator, q.denominator]
+    return x
+
+
+def eval_label_cases(chk, cases, tmpdir: Path):
+    lines = []
+    for c in cases:
+        lab = [cells for n, cells in c["cols"] if n.lower() == "label"][0]
+        lines.append(req("pin-labels", [wire_label(x) for x in lab]))
+    resp = common.driver_batch(lines)
+    for i, c in enumerate(cases):
+        r = dec(resp[i])
+        model = None if isinstance(r[0], str) else [a_bool(x) for x in r[0]]
+        model_err = r[0] if isinstance(r[0], str) else None
+        spec_ok = a_bool(r[1])
+        lab = [cells for n, cells in c["cols"] if n.lower() == "label"][0]
+        # direct re-statement: every label must be exactly 1, 0 or -1
+        outside = [x for x in lab if x not in (1, 0, -1)]
+        path = tmpdir / f"labels{i}{c['suffix']}"
+        write_case(c, path)
+        status, out = run_impl(c, path)
+        try:
+            path.unlink()
+        except OSError:
+            pass
+        chk.case(None, (tuple(lab), c["fmt"]), sample=dict(labels=lab, fmt=c["fmt"],
+                                                           impl=(out.get("targets") if status == "ok" else repr(out)[:80])))
+        chk.count("kind", "labels")
+        chk.count("label_floats", c["kind"].split(":")[1] + "/" + c["fmt"])
+        chk.count("impl", status)
+        info = dict(case=jsonable(c))
+        if spec_ok != (not outside):
+            chk.corr_break("pin-labels-spec", dict(info, impl="-", model=f"labelOkNum={spec_ok}, outside={outside}"))
+        if status == "error":
+            err = f"{type(out).__name__}: {str(out)[:200]}"
+            if model is not None:
+                chk.corr_break("pin-labels", dict(info, impl=err, model=model))
+            else:
+                chk.reject(model_err + "/" + type(out).__name__)
+            continue
+        if outside:
+            chk.spec_violation("malformed-accepted:fractional-label",
+                               dict(info, impl=dict(targets=out.get("targets")), expected="an exception",
+                                    clause=f"label value(s) {outside} outside {{-1, 0, 1}}: not rejected"))
+            continue
+        if out.get("targets") != [x == 1 for x in lab]:
+            chk.spec_violation("clause:targets", dict(info, impl=out.get("targets"), expected=[x == 1 for x in lab],
+                                                      clause=CLAUSE["targets"]))
+            continue
+        if model is None or out.get("targets") != model:
+            chk.corr_break("pin-labels", dict(info, impl=out.get("targets"), model=model if model is not None else model_err))
 
 
 # ----------------------------------------------------------------------------
@@ -657,6 +973,31 @@ def random_cases(rng, n):
     return cases
 
 
+def args_sweep(rng):
+    """every keyword argument x entry point x keyword / positional call, naming a feature column (always an
+    admissible call: the full specification applies)"""
+    cases = []
+    for k in ARG_KEYS:
+        for entry in ("read_pin", "read_percolator"):
+            for call in ("kw", "pos"):
+                c = gen_case(rng, nmax=8, force=dict(nrows=rng.choice([2, 3])))
+                names = [n for n, _ in c["cols"]]
+                feats = [n for n in names if n.lower() not in REQUIRED + LEVELS + OPTIONAL + ["charge_column"]]
+                c["args"][k] = rng.choice(feats)
+                c["entry"], c["call"] = entry, call
+                c["kind"] = "args:feature"
+                cases.append(c)
+    return cases
+
+
+def files_cases(rng, n):
+    return [gen_files_case(rng) for _ in range(n)]
+
+
+def label_cases(rng, n):
+    return [gen_label_case(rng) for _ in range(n)]
+
+
 def malformed_cases(rng, per_kind):
     """a fixed number of every kind of malformed table"""
     return [malform(rng, gen_case(rng, nmax=12), kind) for kind in MALFORMED_KINDS for _ in range(per_kind)]
@@ -676,7 +1017,8 @@ def search(chk):
     try:
         run_in_batches(chk, sweep_feature_counts(rng, range(1, 61), [None, 1, 2, 3, 5, 7], ["pin", "parquet"]), tmp)
         if not chk.spec_violations:
-            run_in_batches(chk, random_cases(rng, 1500) + malformed_cases(rng, 40), tmp)
+            run_in_batches(chk, random_cases(rng, 1500) + malformed_cases(rng, 40) + args_sweep(rng) + files_cases(rng, 300)
+                           + label_cases(rng, 100), tmp)
         if not chk.spec_violations:
             run_in_batches(chk, sweep_masks(rng), tmp)
     finally:
@@ -689,8 +1031,8 @@ def minimise(chk):
     if not chk.spec_violations:
         return
     sig, info = chk.spec_violations[0]
-    if "case" not in info or info.get("shrunk"):
-        return
+    if "case" not in info or info.get("shrunk") or "cols" not in info["case"]:
+        return  # (calls with several files are reported as generated)
     c0 = info["case"]
     tmp = Path(tempfile.mkdtemp(prefix="c10m-"))
 
@@ -731,7 +1073,7 @@ def minimise(chk):
 
 
 def main(chk, args):
-    build = common.build_and_audit("C10")
+    build = common.build_and_audit("C10", extra_targets=["MokapotVerif.Mutants.Pin", "MokapotVerif.Mutants.PinExt"])
     if not build.driver_ok:
         chk.finish(build, RULE)
     rng = chk.rng
@@ -741,6 +1083,9 @@ def main(chk, args):
         if chk.tier == "quick":
             cases += random_cases(rng, 250)
             cases += malformed_cases(rng, 5)
+            cases += args_sweep(rng)
+            cases += files_cases(rng, 36)
+            cases += label_cases(rng, 20)
             # every feature count 1..60 (all residues modulo the default column chunk size 19)
             cases += sweep_feature_counts(rng, range(1, 61), [None], ["pin", "parquet"])
             cases += sweep_feature_counts(rng, range(1, 9), [1, 2, 3, 4], ["pin", "parquet"])
@@ -748,6 +1093,9 @@ def main(chk, args):
         else:
             cases += random_cases(rng, 2500)
             cases += malformed_cases(rng, 50)
+            cases += args_sweep(rng) + args_sweep(rng) + args_sweep(rng)
+            cases += files_cases(rng, 450)
+            cases += label_cases(rng, 240)
             cases += sweep_feature_counts(rng, range(1, 61), [None, 1, 2, 3, 4, 5, 7, 11], ["pin", "parquet"])
             run_in_batches(chk, cases, tmp)
             masks = sweep_masks(rng)
@@ -759,7 +1107,10 @@ def main(chk, args):
     finally:
         shutil.rmtree(tmp, ignore_errors=True)
     minimise(chk)
-    lc = common.leanchecker("C10") if chk.tier == "thorough" else None
+    lc = None
+    if chk.tier == "thorough":
+        lc1, lc2 = common.leanchecker("C10"), common.leanchecker("C10Ext")
+        lc = (lc1[0] and lc2[0], lc1[1] + lc2[1])
     chk.assumptions += [
         "pandas.read_csv / pyarrow decide which cells are missing (NA tokens, nulls, NaN) and infer the column "
         "dtypes; the model receives the table after that decoding (cells: missing | int | bool | text)",
@@ -767,7 +1118,9 @@ def main(chk, args):
         "lower-casing is non-ASCII-sensitive)",
         "joblib.Parallel(require='sharedmem') returns task results in task order; list.append is atomic; the "
         "completion order of the tasks is a universally quantified parameter of the model",
-        "pd.concat of the appended frames concatenates rows in list order",
+        "pd.concat of the appended frames concatenates rows in list order and keeps their row labels",
+        "the readers number the rows of a file consecutively over the row chunks (tabular_data.py, property C13)",
+        "a float label is sent to the model as the exact rational value of the double that pandas / pyarrow decode",
     ]
     chk.finish(build, RULE, search=search, lc=lc,
                trusted_extra=["pandas read_csv (type inference, NA tokens, chunksize), pyarrow Parquet "
